@@ -339,6 +339,8 @@ func (nopCloserAt) Close() error { return nil }
 
 type c43Graphs struct {
 	full, partial []byte // git-written commit-graph files (partial: commits numbered 0 and 1 only)
+	v1            []byte // the full graph written with commitGraph.generationVersion=1 (no generation data chunk)
+	chain, mixed  [][]byte // 2-layer chains (layer 0 = commits numbered 0 and 1); mixed: layer 1 written without generation data
 }
 
 func runC43(c *fw.Ctx) {
@@ -363,7 +365,7 @@ func runC43(c *fw.Ctx) {
 	c.Bound("orders", []string{"default", "DFS", "DFSPost", "BFS", "CTime", "DFSPostFirstParent", "All x each"})
 	c.Bound("limits", "sources DFS, BFS, CTime; Since in {none, t, t+1}, Until in {none, t-1, t} for every timestamp t present (full product for CTime, one-sided for DFS/BFS); To = every commit (alone; with every exact Since for CTime)")
 	c.Bound("all_ref_sets", "branches on every 1- and 2-subset of the commits, HEAD symbolic to the first or detached on every commit")
-	c.Bound("commit_graph", fmt.Sprintf("git-written commit-graph (generation v2) over the complete <=%d-commit space, full and partial (commits 0,1 only); CommitNode iterators CTime/Topo/Date/AuthorDate from every start", graphN))
+	c.Bound("commit_graph", fmt.Sprintf("git-written commit-graph over the complete <=%d-commit space: full with generation v2, partial (commits 0,1 only), full without generation data (commitGraph.generationVersion=1), 2-layer chain (layer 0 = commits 0,1), 2-layer chain with generation data in layer 0 only; CommitNode iterators CTime/Topo/Date/AuthorDate from every start", graphN))
 	c.Bound("conformance_max_commits", litN)
 	c.SetRule("every DAG (ordered parent lists, octopus up to 4 commits) x every weak order of committer timestamps; Repository.Log per order/start/limit/ref set and commitgraph CommitNode iterators on a memory store holding the raw commits (graph-backed: a commit-graph file written by git); oracle = graph model (reach set, first-parent chain, BFS distance, pop rule, merged-before-base, topological constraint, time filter, prefix-to-tail); the model is replayed against real `git rev-list [--first-parent] [--since-as-filter --until | --since] <starts>` for every distinct start of the complete space up to conformance_max_commits; non-trivial = walks from a commit with at least one parent; distinct counts (walker, result length, merge/time shape, limit shape) classes")
 	c.Assume("git 2.39.5 rev-list is the reference; go-git's Since/Until are per-commit filters = git --since-as-filter/--until (plain --since only for monotone timestamps); To has no git counterpart: contract = prefix of the same walk up to and including the tail; DFS/BFS/post-order contracts are the generic definitions (any parent order)")
@@ -472,6 +474,22 @@ func c43Instance(c *fw.Ctx, in *eInst, idx int, fails *eFailSet, untimed, timed,
 				continue
 			}
 			full[[2]int{oi, s}] = seq
+			// the other way to consume an iterator: Next() until io.EOF
+			if it, err := r.Log(&git.LogOptions{From: in.H[s], Order: o.order}); err == nil {
+				seqN, errN := c43Collect(in, func() (plumbing.Hash, error) {
+					cm, err := it.Next()
+					if err != nil {
+						return plumbing.ZeroHash, err
+					}
+					return cm.Hash, nil
+				}, 3*in.N+4)
+				it.Close()
+				c.Eval()
+				c.Transitions(1)
+				if errN != "" || fmt.Sprint(seqN) != fmt.Sprint(seq) {
+					fails.Add("Log "+o.name+": Next() yields another sequence than ForEach", idx, q, fmt.Sprintf("%s %s Next=%v %s ForEach=%v", in, q, seqN, errN, seq), rep("Log via Next()", q, fmt.Sprint(seqN, " ", errN), seq))
+				}
+			}
 			kinds, _ := c43SetKinds(seq, want)
 			contract := ""
 			if len(kinds) == 0 {
@@ -739,6 +757,30 @@ func c43GraphInstance(c *fw.Ctx, in *eInst, idx int, fails *eFailSet, g *c43Grap
 	if ix := open(g.partial); ix != nil {
 		backs = append(backs, backing{"partial-graph", cgobj.NewGraphCommitNodeIndex(ix, st)})
 	}
+	if ix := open(g.v1); ix != nil {
+		if ix.HasGenerationV2() {
+			fails.Add("commit-graph: generation v2 claimed for a file without generation data", idx, "", "", func() map[string]any { return map[string]any{} })
+		}
+		backs = append(backs, backing{"graph-without-generation-data", cgobj.NewGraphCommitNodeIndex(ix, st)})
+	}
+	openChain := func(layers [][]byte) cgfmt.Index {
+		var ix cgfmt.Index
+		for _, b := range layers {
+			nx, err := cgfmt.OpenFileIndexWithParent(nopCloserAt{bytes.NewReader(b)}, ix)
+			if err != nil {
+				fails.Add("commit-graph: go-git cannot open the chain git wrote", idx, "", err.Error(), func() map[string]any { return map[string]any{"error": err.Error()} })
+				return nil
+			}
+			ix = nx
+		}
+		return ix
+	}
+	if ix := openChain(g.chain); ix != nil {
+		backs = append(backs, backing{"graph-chain", cgobj.NewGraphCommitNodeIndex(ix, st)})
+	}
+	if ix := openChain(g.mixed); ix != nil {
+		backs = append(backs, backing{"graph-chain-mixed-generation-data", cgobj.NewGraphCommitNodeIndex(ix, st)})
+	}
 	for s := 0; s < in.N; s++ {
 		for _, ni := range c43NodeIters {
 			seqs := map[string][]int{}
@@ -801,8 +843,8 @@ func c43GraphInstance(c *fw.Ctx, in *eInst, idx int, fails *eFailSet, g *c43Grap
 			if len(in.Parents[s]) > 0 {
 				same := "same-seq"
 				if o, ok := seqs["object"]; ok {
-					for _, k := range []string{"graph", "partial-graph"} {
-						if g, ok := seqs[k]; ok && fmt.Sprint(g) != fmt.Sprint(o) {
+					for _, b := range backs[1:] {
+						if g, ok := seqs[b.name]; ok && fmt.Sprint(g) != fmt.Sprint(o) {
 							same = "seq-differs"
 						}
 					}
@@ -844,7 +886,58 @@ func c43WriteGraphs(c *fw.Ctx, repo *eRepo, insts []*eInst) *c43Graphs {
 	}
 	repo.G.MustRun("commit-graph", "verify")
 	os.Remove(path)
-	c.Extra("commit_graph_bytes", map[string]int{"full": len(g.full), "partial": len(g.partial)})
+	// the same graph without the generation data chunk (what older gits and
+	// commitGraph.generationVersion=1 write): the walkers fall back to generation v1
+	gv1 := repo.G.C("commitGraph.generationVersion=1")
+	gv1.MustRunIn(all.Bytes(), "commit-graph", "write", "--stdin-commits")
+	if g.v1, err = os.ReadFile(path); err != nil {
+		fw.Abort("v1 commit-graph: %v", err)
+	}
+	if bytes.Contains(g.v1[:200], []byte("GDA2")) || !bytes.Contains(g.full[:200], []byte("GDA2")) {
+		fw.Abort("generation data chunk: unexpected presence/absence in the git-written graphs")
+	}
+	repo.G.MustRun("commit-graph", "verify")
+	os.Remove(path)
+	// 2-layer chains: layer 0 = commits numbered 0 and 1
+	chainDir := filepath.Join(repo.Dir, "objects", "info", "commit-graphs")
+	readChain := func(what string) [][]byte {
+		cb, err := os.ReadFile(filepath.Join(chainDir, "commit-graph-chain"))
+		if err != nil {
+			fw.Abort("%s: %v", what, err)
+		}
+		var out [][]byte
+		for _, l := range eLines(cb) {
+			b, err := os.ReadFile(filepath.Join(chainDir, "graph-"+l+".graph"))
+			if err != nil {
+				fw.Abort("%s: %v", what, err)
+			}
+			out = append(out, b)
+		}
+		if len(out) != 2 {
+			fw.Abort("%s: git wrote %d layers", what, len(out))
+		}
+		return out
+	}
+	for _, mixed := range []bool{false, true} {
+		os.RemoveAll(chainDir)
+		repo.G.MustRunIn(low.Bytes(), "commit-graph", "write", "--split=no-merge", "--stdin-commits")
+		top := repo.G
+		if mixed {
+			top = gv1
+		}
+		top.MustRunIn(all.Bytes(), "commit-graph", "write", "--split=no-merge", "--stdin-commits")
+		repo.G.MustRun("commit-graph", "verify")
+		if mixed {
+			g.mixed = readChain("mixed chain")
+			if bytes.Contains(g.mixed[1][:200], []byte("GDA2")) || !bytes.Contains(g.mixed[0][:200], []byte("GDA2")) {
+				fw.Abort("mixed chain: generation data chunk expected in layer 0 only")
+			}
+		} else {
+			g.chain = readChain("chain")
+		}
+	}
+	os.RemoveAll(chainDir)
+	c.Extra("commit_graph_bytes", map[string]int{"full": len(g.full), "partial": len(g.partial), "without_generation_data": len(g.v1), "chain_top_layer": len(g.chain[1]), "mixed_chain_top_layer": len(g.mixed[1])})
 	return g
 }
 
